@@ -46,7 +46,7 @@ func (s *StakingMsgs) Delegate(ctx context.Context, msg *stakingtypes.MsgDelegat
 		if err != nil {
 			return nil, err
 		}
-		if err := s.Bank.move(del, ModuleAddress(BondedPool), sdk.Coins{msg.Amount}); err != nil {
+		if err := s.Bank.move(s.Bank.state(ctx), del, ModuleAddress(BondedPool), sdk.Coins{msg.Amount}); err != nil {
 			return nil, err
 		}
 	}
